@@ -127,6 +127,20 @@ def cases_for(rng, tier):
         cases.append({"sb": rng.choice([0, 2, 3]), "ops": invalid_args_case(rng)})
         cases.append({"sb": rng.choice([0, 2, 3]), "ops": cached_header_case(rng)})
         cases.append({"sb": rng.choice([0, 2, 3]), "ops": histgen.gen_mixed(rng, nops=rng.choice([20, 50]), fail_rate=0.4, sessions=rng.choice([1, 1, 2]))})
+    # hard links whose target's header chunk is nearly full: the reference-count message may not fit, the call then fails and
+    # must leave NO name behind and the name must stay available (seeded change C03-e: link written before the count update)
+    from props import c03
+    for _ in range(60 if tier == "quick" else 2000):
+        ops = c03.fat_header_history(rng)
+        tail = []
+        for o in ops:
+            if o["op"] == "hardlink" and rng.random() < 0.5:      # the same name again, as a dataset: refused iff the link exists
+                tail.append({"op": "mkds", "path": o["path"], "dtype": "uint8", "dims": [1]})
+        # a target of another kind with little room: a rank-23..25 dataset (soft-link objects are left to C03: the reader's handling of
+        # soft links is a listed finding there)
+        ops += [{"op": "mkds", "path": "/r24", "dtype": "int32", "dims": [1] * rng.choice([23, 24, 25])},
+                {"op": "hardlink", "path": "/hr", "target": "/r24"}, {"op": "mkgroup", "path": "/hr"}]
+        cases.append({"sb": rng.choice([0, 2, 3]), "ops": ops + tail + [{"op": "close"}, {"op": "close"}]})
     return cases
 
 
